@@ -181,6 +181,11 @@ func ReferencesComponentInRootDocument(doc *T, ref ComponentRef) (string, bool) 
 	if isRemoteReference(ref.RefString()) && isRootComponentReference(ref.RefString(), ref.CollectionName()) {
 		// Determine if it is *this* root doc.
 		if referencesRootDocument(doc, ref) {
+			// the reference may have reached the root document through another document
+			// that names the component differently: the resolved path holds the name used here
+			if fragment := ref.RefPath().Fragment; strings.HasPrefix(fragment, path.Join("/components/", ref.CollectionName())+"/") {
+				return "#" + fragment, true
+			}
 			_, name, _ := strings.Cut(ref.RefString(), path.Join("#/components/", ref.CollectionName()))
 
 			return path.Join("#/components/", ref.CollectionName(), name), true
